@@ -461,6 +461,9 @@ def families(rng, quick):
     add("mix_obj", [Asg("m", N("b")), If(Cmp(">", N("a"), I(2)), [Asg("m", F(2.5))]), Ret(N("m"))])
     add("mix_len", [Asg("m", Un("len", N("s"))), If(Cmp(">", N("a"), I(2)), [Asg("m", F(2.0))]), Ret(N("m"))])
     add("mix_bool_int", [Asg("p", Cmp("<", N("a"), I(3))), If(Cmp(">", N("a"), I(1)), [Asg("p", I(5))]), Ret(N("p"))])
+    add("mix_boollit_int", [Asg("p", e_bool(True)), If(Cmp(">", N("a"), I(2)), [Asg("p", I(5))]), Ret(N("p"))])
+    add("mix_boollit_flt", [Asg("p", e_bool(True)), If(Cmp(">", N("a"), I(2)), [Asg("p", F(0.5))]), Ret(N("p"))])
+    add("bool_lits", [Asg("p", e_bool(True)), Asg("q", e_bool(False)), If(Cmp(">", N("a"), I(2)), [Asg("p", e_bool(False))]), Ret(Tup([N("p"), N("q"), BoolOp("or", N("q"), N("p"))]))])
     add("mix_int_str", [Asg("x", I(5)), If(Cmp(">", N("a"), I(2)), [Asg("x", S("five"))]), Ret(N("x"))])
     add("mix_flt_str", [Asg("u", F(0.5)), If(Cmp(">", N("a"), I(2)), [Asg("u", S("half"))]), Ret(N("u"))])
     # F3 -- C integers reaching arithmetic through a node that resets the might_overflow flag
@@ -620,7 +623,10 @@ class RandGen(object):
         if r < 0.72:
             return Cond(self.cond(names, loop), self.iexpr(d - 1, names, loop), self.iexpr(d - 1, names, loop))
         if r < 0.79:
-            return BoolOp(self.ch(["or", "and"]), self.iexpr(d - 1, names, loop), self.iexpr(d - 1, names, loop))
+            first = self.iexpr(d - 1, names, loop)
+            if first["k"] == "int":
+                first = N(self.ch(["a", "b"]))
+            return BoolOp(self.ch(["or", "and"]), first, self.iexpr(d - 1, names, loop))
         if r < 0.88:
             e = self.iexpr(d - 1, names, loop)
             if e["k"] == "int":
@@ -630,9 +636,9 @@ class RandGen(object):
             return MM(self.ch(["min", "max"]), self.iexpr(d - 1, names, loop), self.iexpr(d - 1, names, loop))
         return Lam(self.iexpr(d - 1, [n for n in names if n not in ("i", "j")], loop))
 
-    def fexpr(self, d, names, loop):
+    def fexpr(self, d, names, loop, allow_m=True):
         r = self.rng.random()
-        fv = [n for n in names if n in self.FV or n == "m"]
+        fv = [n for n in names if n in self.FV or (n == "m" and allow_m)]
         if d <= 0 or r < 0.3:
             if fv and self.rng.random() < 0.55:
                 return N(self.ch(fv))
@@ -649,8 +655,8 @@ class RandGen(object):
                 rr = N(self.ch(fv)) if fv else N("a")
             return Bin(op, l, rr)
         if r < 0.85:
-            return Cond(self.cond(names, loop), self.fexpr(d - 1, names, loop), self.fexpr(d - 1, names, loop))
-        e = self.fexpr(d - 1, names, loop)
+            return Cond(self.cond(names, loop), self.fexpr(d - 1, names, loop, False), self.fexpr(d - 1, names, loop, False))
+        e = self.fexpr(d - 1, names, loop, allow_m)
         if e["k"] == "flt":
             e = N(self.ch(fv)) if fv else N("b")
         return Un(self.ch(["neg", "abs"]), e)
@@ -720,7 +726,7 @@ def inputs_for(rng, body_src, n):
     A = [0, 1, 3, 5, 64, 70]
     Bs = [0, 1, -3, 5, 2, BIG31, 2 ** 31, -2 ** 63, 2 ** 63, 2 ** 70 + 1, -2 ** 70]
     Ss = ["", "a", "abc", "abcdefghij"]
-    fixed = [(0, 1, ""), (3, 5, "abc"), (70, 2 ** 70 + 1, "abcdefghij"), (64, -3, "a")]
+    fixed = [(0, 1, ""), (3, 5, "abc"), (70, 2 ** 70 + 1, "abcdefghij"), (5, -3, "a")]
     out = list(fixed[:n])
     while len(out) < n:
         t = (rng.choice(A), rng.choice(Bs), rng.choice(Ss))
@@ -733,7 +739,7 @@ def inputs_for(rng, body_src, n):
 
 def type_class(ent):
     if ent["pyobject"]:
-        return "S" if ent.get("builtin") == "str" else "O"
+        return {"str": "S", "int": "I"}.get(ent.get("builtin"), "O")
     if ent["is_bint"]:
         return "B"
     if ent["is_uchar"]:
